@@ -25,7 +25,7 @@ VARIANTS = {
     # name: (STIR_OPENMP, extra compile flags for STIR and harness, link flags, simrt objects)
     "seq": dict(openmp="OFF", cxx=BASEFLAGS + " -fsanitize=address -D_GLIBCXX_SANITIZE_VECTOR -D_GLIBCXX_ASSERTIONS", link="-fsanitize=address",
                 simrt=["simcore", "simlibc"]),
-    "omp": dict(openmp="ON", cxx=BASEFLAGS + " -fsanitize=thread", link="",
+    "omp": dict(openmp="ON", cxx=BASEFLAGS + " -fsanitize=thread -D_GLIBCXX_ASSERTIONS", link="",
                 simrt=["simcore", "simlibc", "simgomp", "simtsan"]),
     "ompa": dict(openmp="ON", cxx=BASEFLAGS + " -fsanitize=address", link="-fsanitize=address",
                  simrt=["simcore", "simlibc", "simgomp"]),
